@@ -1,6 +1,6 @@
 (* Proofs about Model/Tsql.v (C11). *)
 From Coq Require Import List NArith ZArith Bool Arith Lia.
-From PyD Require Import Base.Str Base.Dec Model.Tsdb Model.Hier Model.Tsql.
+From PyD Require Import Base.Str Base.Dec Model.Tsdb Model.TsdbDate Model.Hier Model.Tsql.
 Import ListNotations.
 
 (* ---- key equality is symmetric and transitive ---- *)
@@ -89,7 +89,12 @@ Theorem none_rules o cols row op q v i :
   cast_val (match nth_error cols i with Some (_, f) => tf_type f | None => TStr end) (nth_raw row i) = COk VNone ->
   eval o cols row (RCmp op q v) = Some (match op with ONre => true | _ => false end).
 Proof.
-  intros Hi Hc. simpl. rewrite Hi, Hc. destruct op; reflexivity.
+  intros Hi Hc. simpl. rewrite Hi.
+  destruct (match nth_error cols i with Some (_, f) => tf_type f | None => TStr end) eqn:ET;
+    cbn [is_tdate]; try (rewrite Hc; destruct op; reflexivity).
+  (* a :date column *)
+  unfold eval_date. destruct (nth_raw row i) as [[|c s]|]; try (destruct op; reflexivity).
+  simpl in Hc. discriminate.
 Qed.
 
 Theorem empty_field_casts_to_none t : cast_val t None = COk VNone /\ cast_val t (Some []) = COk VNone.
@@ -116,9 +121,9 @@ Fixpoint cond_ind2 (c : cond) : P c :=
 End cond_ind2.
 
 (* the trees the parser can produce: and/or have at least two children, integer
-   operands are not used with ~ / !~ and strings not with ordering operators *)
+   operands and dates are not used with ~ / !~ and strings not with ordering operators *)
 Definition lit_ok (o : cmpop) (v : lit) : bool :=
-  match v with LInt _ => negb (regex_op o) | LStr _ => negb (order_op o) end.
+  match v with LInt _ => negb (regex_op o) | LStr _ => negb (order_op o) | LDate _ => negb (regex_op o) end.
 
 Fixpoint cwf (c : cond) : Prop :=
   match c with
@@ -250,7 +255,7 @@ Proof.
   - (* comparison *)
     assert (A : PA (CCmp o col v)).
     { intros rest fuel Hf. destruct fuel as [|f]; [simpl in Hf; lia|].
-      simpl in Hw. destruct v as [z|s]; simpl; unfold lit_ok in Hw; simpl in Hw;
+      simpl in Hw. destruct v as [z|s|d]; simpl; unfold lit_ok in Hw; simpl in Hw;
         apply negb_true_iff in Hw; rewrite Hw; reflexivity. }
     assert (C : PC (CCmp o col v)).
     { intros rest fuel Hf Hr. destruct fuel as [|f]; [simpl in Hf; lia|].
@@ -409,4 +414,37 @@ Proof.
   cbn [parse_where app].
   rewrite (parse_print c2 [KDot]); [reflexivity | exact W2 | | exact I | exact I].
   pose proof (need_le_tokens c2 W2 0). rewrite app_length. simpl. lia.
+Qed.
+
+(* ---- date columns: a comparison with a date literal is the comparison of the instants ---- *)
+Definition cmp_holds (op : cmpop) (c : comparison) : option bool :=
+  match op with
+  | OEq => Some (match c with Eq => true | _ => false end)
+  | ONe => Some (match c with Eq => false | _ => true end)
+  | OLt => Some (match c with Lt => true | _ => false end)
+  | OLe => Some (match c with Gt => false | _ => true end)
+  | OGt => Some (match c with Gt => true | _ => false end)
+  | OGe => Some (match c with Lt => false | _ => true end)
+  | ORe | ONre => None
+  end.
+
+Theorem date_comparison o cols row op q i f s d z :
+  sel_index cols q = Some i -> nth_error cols i = Some f -> tf_type (snd f) = TDate ->
+  nth_raw row i = Some s -> s <> [] -> parse_datetime s = DSome d ->
+  eval o cols row (RCmp op q (LDate z)) = cmp_holds op (dt_cmp d z).
+Proof.
+  intros Hi Hn Ht Hr Hs Hp. cbn [eval]. rewrite Hi, Hn. destruct f as [nm tf]. cbn [snd] in Ht.
+  rewrite Ht. cbn [is_tdate]. unfold eval_date. rewrite Hr.
+  destruct s as [|c s]; [congruence|]. rewrite Hp. destruct op; reflexivity.
+Qed.
+
+(* a stored text that is not a date reads as an empty field *)
+Theorem date_unreadable o cols row op q i f s v :
+  sel_index cols q = Some i -> nth_error cols i = Some f -> tf_type (snd f) = TDate ->
+  nth_raw row i = Some s -> parse_datetime s = DNone ->
+  eval o cols row (RCmp op q v) = Some (match op with ONre => true | _ => false end).
+Proof.
+  intros Hi Hn Ht Hr Hp. cbn [eval]. rewrite Hi, Hn. destruct f as [nm tf]. cbn [snd] in Ht.
+  rewrite Ht. cbn [is_tdate]. unfold eval_date. rewrite Hr.
+  destruct s as [|c s]; [destruct op; reflexivity|]. rewrite Hp. destruct op; reflexivity.
 Qed.
